@@ -142,6 +142,8 @@ class Reactor(composites.Composite):
         if self.excore.sfp is not None:
             ind = self.excore.sfp.normalizeNames(self.p.maxAssemNum)
             self.p.maxAssemNum = ind
+            # the core's own renumbering rebuilt its name tables from the core alone
+            self.core.regenAssemblyLists()
 
         return ind
 
